@@ -1,7 +1,8 @@
 #!/usr/bin/env python3
 """Replay a violation file produced by run_check.py:  replay.py <file> [--trace]
-Rebuilds the variant named in the file's header from /repo's current tree and executes the plan in a fresh process.
-Exit 1 if the recorded violation (or crash) reproduces, 0 if not."""
+Rebuilds the variant named in the file's header from /repo's current tree and executes the plan(s) in a fresh process
+(a file may hold several plans: the earlier ones are the history of the worker process, see DESIGN.md 4.5).
+Exit 1 if the run ends in a violation or dies (crash, sanitizer or memcheck report), 0 if it is clean."""
 import os, re, subprocess, sys
 VERIF = os.path.dirname(os.path.abspath(__file__))
 sys.path.insert(0, VERIF)
@@ -9,10 +10,14 @@ import build as simbuild
 path = sys.argv[1]
 hdr = dict(re.findall(r"^# (\w+)=(.*)$", open(path).read(), re.M))
 variant = hdr.get("variant", "exc.plain")
-if variant not in simbuild.VARIANTS:
-    variant = "exc.plain"
-exe = simbuild.build(variant)
+valgrind = "valgrind" in variant
+bvariant = variant.replace("valgrind", "plain")
+if bvariant not in simbuild.VARIANTS:
+    bvariant = "exc.plain"
+exe = simbuild.build(bvariant)
 cmd = [exe, "--data", os.path.join(VERIF, "data"), "--replay", path] + (["--trace"] if "--trace" in sys.argv else [])
+if valgrind:
+    cmd = ["valgrind", "-q", "--error-exitcode=78", "--exit-on-first-error=yes", "--leak-check=full", "--errors-for-leak-kinds=definite", "--num-callers=12"] + cmd
 env = dict(os.environ, ASAN_OPTIONS="exitcode=77:detect_leaks=0:allocator_may_return_null=1")
 p = subprocess.run(cmd, env=env)
 sys.exit(0 if p.returncode == 0 else 1)
